@@ -221,7 +221,7 @@ def expr_guards(node, stop=None):
     out = []
     child = node
     p = getattr(node, "_parent", None)
-    while p is not None and p is not stop:
+    while p is not None:
         if isinstance(p, ast.IfExp):
             if child is p.body:
                 out.append((p.test, True))
@@ -252,13 +252,13 @@ def expr_guards(node, stop=None):
                     for prev in blk:
                         if prev is child:
                             break
-                        if isinstance(prev, ast.If) and _always_exits(prev.body) and not prev.orelse:
+                        if isinstance(prev, ast.If) and _always_exits(prev.body):
                             out.append((prev.test, False))
                         elif isinstance(prev, ast.If) and prev.orelse and _always_exits(prev.orelse) and not _always_exits(prev.body):
                             out.append((prev.test, True))
                         elif isinstance(prev, ast.Assert):
                             out.append((prev.test, True))
-        if isinstance(p, (ast.FunctionDef, ast.AsyncFunctionDef)) and stop is None:
+        if p is stop or (isinstance(p, (ast.FunctionDef, ast.AsyncFunctionDef)) and stop is None):
             break
         child = p
         p = getattr(p, "_parent", None)
@@ -270,6 +270,9 @@ def _always_exits(block):
         return False
     last = block[-1]
     if isinstance(last, (ast.Return, ast.Raise, ast.Continue, ast.Break)):
+        return True
+    if isinstance(last, ast.Expr) and isinstance(last.value, ast.Call) and isinstance(last.value.func, ast.Attribute) \
+            and last.value.func.attr in ("error", "exit") and isinstance(last.value.func.value, ast.Name) and ("parser" in last.value.func.value.id or last.value.func.value.id == "sys"):
         return True
     if isinstance(last, ast.If) and last.orelse:
         return _always_exits(last.body) and _always_exits(last.orelse)
